@@ -50,8 +50,14 @@ def stepB (st : St) (b : Built) : Op → Built
   | .set0 _ => .split st.e.fs st.e.strip
   | .rewrite _ => .split st.e.fs st.e.strip
   | .getline _ => .split st.e.fs st.e.strip
-  | .setf i _ => if i = 0 then .split st.e.fs st.e.strip else .joined st.e.ofsG
-  | .setnf n => if n < 0 then b else .joined st.e.ofsG
+  | .setf i _ =>
+    if i = 0 then .split st.e.fs st.e.strip
+    else if growFails st.r i then .init          -- ENOMEM: the record is cleared
+    else .joined st.e.ofsG
+  | .setnf n =>
+    if n < 0 then b
+    else if growFails st.r n.toNat then .init
+    else .joined st.e.ofsG
   | _ => b
 
 /-- a history run from the empty record, together with the ghost -/
@@ -212,6 +218,16 @@ theorem setNF_coherent (m : Matcher) (st : St) (b : Built) (n : Int) (r' : Rec)
       rw [this]
       exact hc
 
+/-- the error path of hawk_rtx_setrec (the field table cannot be grown): the cleared record is
+    coherent -/
+theorem clrrec_coherent (m : Matcher) (st : St) (b : Built) (h : Coherent m st b) :
+    Coherent m { st with r := clrrec st.r } .init := by
+  refine ⟨?_, (fun f hf => by cases hf), rfl, h.ofs_eq, ⟨rfl, rfl⟩⟩
+  show (if st.r.flds.length > 0 then (0 : Int) else st.r.nf) = (([] : List Fld).length : Int)
+  split
+  · rfl
+  · rename_i hz; rw [h.nf_eq]; simp at hz; simp [hz]
+
 /-- every statement of the alphabet preserves coherence -/
 theorem step_coherent (m : Matcher) (hm : Sane m) (st : St) (b : Built) (op : Op)
     (h : Coherent m st b) : Coherent m (step m st op) (stepB st b op) := by
@@ -224,24 +240,32 @@ theorem step_coherent (m : Matcher) (hm : Sane m) (st : St) (b : Built) (op : Op
     dsimp only
     split
     · exact setrec0_coherent m hm st b s h
-    · exact setfld_coherent m st b i s h
+    · split
+      · exact clrrec_coherent m st b h
+      · exact setfld_coherent m st b i s h
   | setnf n =>
     unfold step stepB
     dsimp only
-    cases hr : setNF st.e st.r n with
-    | error e =>
-      have : n < 0 := by
-        unfold setNF at hr
-        split at hr
-        · assumption
-        · dsimp only at hr; split at hr <;> cases hr
-      simp only [this, if_true]
-      exact h
-    | ok r' =>
-      obtain ⟨hn, hc⟩ := setNF_coherent m st b n r' h hr
-      have : ¬ n < 0 := by omega
-      simp only [this, if_false]
-      exact hc
+    by_cases hg : 0 ≤ n ∧ growFails st.r n.toNat = true
+    · have : ¬ n < 0 := by omega
+      simp only [hg, and_self, if_true, this, if_false]
+      exact clrrec_coherent m st b h
+    · rw [if_neg hg]
+      cases hr : setNF st.e st.r n with
+      | error e =>
+        have : n < 0 := by
+          unfold setNF at hr
+          split at hr
+          · assumption
+          · dsimp only at hr; split at hr <;> cases hr
+        simp only [this, if_true]
+        exact h
+      | ok r' =>
+        obtain ⟨hn, hc⟩ := setNF_coherent m st b n r' h hr
+        have h1 : ¬ n < 0 := by omega
+        have h2 : ¬ growFails st.r n.toNat = true := fun hh => hg ⟨hn, hh⟩
+        simp only [h1, h2, if_false]
+        exact hc
   | ofs x =>
     exact ⟨h.nf_eq, h.spans, h.d0_eq, rfl, h.built⟩
   | fs y => exact ⟨h.nf_eq, h.spans, h.d0_eq, h.ofs_eq, h.built⟩
@@ -425,7 +449,20 @@ theorem setNF_reads (m : Matcher) (st : St) (b : Built) (h : Coherent m st b) (n
 theorem setNF_negative_rejected (m : Matcher) (st : St) (n : Int) (hn : n < 0) :
     setNF st.e st.r n = .error .einval ∧ step m st (.setnf n) = st := by
   have : setNF st.e st.r n = .error .einval := by unfold setNF; rw [if_pos hn]
-  exact ⟨this, by simp only [step, this]⟩
+  have hneg : ¬ (0 ≤ n ∧ growFails st.r n.toNat = true) := fun hh => by omega
+  exact ⟨this, by simp only [step, this, if_neg hneg]⟩
+
+/-- a field number or an NF the field table cannot be grown to (beyond `maxFlds`) fails with
+    ENOMEM; the record is left cleared: no fields, NF = 0, `$0` empty -/
+theorem grow_failure_clears (m : Matcher) (st : St) (b : Built) (h : Coherent m st b) (k : Nat)
+    (hk : growFails st.r k = true) (hk0 : k ≠ 0) (s : Str) :
+    step m st (.setf k s) = { st with r := clrrec st.r } ∧
+    step m st (.setnf k) = { st with r := clrrec st.r } ∧
+    (clrrec st.r).flds = [] ∧ readNF (clrrec st.r) = 0 ∧ readVal (clrrec st.r) 0 = [] := by
+  have hc := clrrec_coherent m st b h
+  refine ⟨by simp only [step, if_neg hk0, hk, if_true], ?_, rfl, hc.nf_eq, rfl⟩
+  have : (0 : Int) ≤ (k : Int) ∧ growFails st.r (k : Int).toNat = true := ⟨by omega, by simpa using hk⟩
+  simp only [step, this, and_self, if_true]
 
 /-- after a whole-record assignment (`$0 = s`, sub/gsub on `$0`, plain getline): `$0` reads `s`,
     the fields are the pieces of the split of `s` under the FS in force, NF is their number;
@@ -482,8 +519,8 @@ def Keeps (i : Nat) : Op → Prop
   | .set0 _ => False
   | .rewrite _ => False
   | .getline _ => False
-  | .setf j _ => j ≠ 0 ∧ j ≠ i
-  | .setnf n => n < 0 ∨ (i : Int) ≤ n
+  | .setf j _ => j ≠ 0 ∧ j ≠ i ∧ j ≤ maxFlds
+  | .setnf n => n < 0 ∨ ((i : Int) ≤ n ∧ n.toNat ≤ maxFlds)
   | _ => True
 
 /-- across any number of such statements field `i` keeps its value, by value and by reference -/
@@ -506,19 +543,28 @@ theorem field_kept (m : Matcher) (hm : Sane m) (i : Nat) (hi : 1 ≤ i) (v : Str
       | rewrite s => exact absurd hkop (by simp [Keeps])
       | getline s => exact absurd hkop (by simp [Keeps])
       | setf j s =>
-        obtain ⟨hj0, hji⟩ := hkop
+        obtain ⟨hj0, hji, hjm⟩ := hkop
         have hs := setfld_reads m st b hc j (by omega) s
         obtain ⟨_, s2, _, s4⟩ := hs
         have hcf := setfld_coherent m st b j s hc
         have hnf := hcf.nf_eq
-        simp only [step, if_neg hj0]
+        have hgf : ¬ growFails st.r j = true := by
+          unfold growFails; simp only [decide_eq_true_eq]; omega
+        simp only [step, if_neg hj0, if_neg hgf]
         refine ⟨by rw [(s2 i hi (Ne.symm hji) hle).1]; exact hv, ?_⟩
         have : ((setfld st.e st.r j s).flds.length : Int) = max st.r.flds.length j := by
           rw [← s4]; exact hnf.symm
         omega
       | setnf n =>
+        have hgf : ¬ (0 ≤ n ∧ growFails st.r n.toNat = true) := by
+          rintro ⟨h0, hg⟩
+          unfold growFails at hg
+          simp only [decide_eq_true_eq] at hg
+          rcases hkop with h1 | h1
+          · omega
+          · omega
         cases hr : setNF st.e st.r n with
-        | error e => simp only [step, hr]; exact ⟨hv, hle⟩
+        | error e => simp only [step, hr, if_neg hgf]; exact ⟨hv, hle⟩
         | ok r' =>
           have hn : ¬ n < 0 := by
             intro hneg
@@ -527,9 +573,9 @@ theorem field_kept (m : Matcher) (hm : Sane m) (i : Nat) (hi : 1 ≤ i) (v : Str
           have hin : (i : Int) ≤ n := by
             rcases hkop with h1 | h1
             · exact absurd h1 hn
-            · exact h1
+            · exact h1.1
           obtain ⟨_, s2, _, _, s5⟩ := setNF_reads m st b hc n r' hr
-          simp only [step, hr]
+          simp only [step, hr, if_neg hgf]
           exact ⟨by rw [(s2 i hi hin hle).1]; exact hv, by omega⟩
       | ofs x => exact ⟨hv, hle⟩
       | fs y => exact ⟨hv, hle⟩
@@ -545,18 +591,21 @@ theorem run_append (m : Matcher) (a b : List Op) :
 
 /-- **a field reads back the value last given to it**: after any history, `$i = v`, and then any
     statements that do not re-split the record, assign `$i` again or cut the record below `i`,
-    `$i` reads `v` — by value and through a positional reference -/
+    `$i` reads `v` — by value and through a positional reference (`i ≤ maxFlds`: a field number
+    whose table size cannot be represented is refused, see `grow_failure_clears`) -/
 theorem field_reads_last_assigned (m : Matcher) (hm : Sane m) (ops ops' : List Op) (i : Nat)
-    (hi : 1 ≤ i) (v : Str) (hk : ∀ op ∈ ops', Keeps i op) :
+    (hi : 1 ≤ i) (him : i ≤ maxFlds) (v : Str) (hk : ∀ op ∈ ops', Keeps i op) :
     readVal (run m (ops ++ [.setf i v] ++ ops')).r i = v ∧
     readRef (run m (ops ++ [.setf i v] ++ ops')).r i = v := by
   rw [run_append, run_append]
   have hc0 := reachable_coherent m hm ops
   rw [runG_fst] at hc0
   have hne : i ≠ 0 := by omega
+  have hgf : ¬ growFails (run m ops).r i = true := by
+    unfold growFails; simp only [decide_eq_true_eq]; omega
   have hst : [Op.setf i v].foldl (step m) (run m ops)
       = { run m ops with r := setfld (run m ops).e (run m ops).r i v } := by
-    simp [step, hne]
+    simp [step, hne, hgf]
   rw [hst]
   obtain ⟨⟨s1, _⟩, _, _, s4⟩ := setfld_reads m _ _ hc0 i hi v
   have hc1 := setfld_coherent m _ _ i v hc0
@@ -729,6 +778,6 @@ example : (run colonMatcher [.setf 3 ['x'], .ofs ['-'], .setf 1 ['a', 'b'], .set
 example : ∀ op ∈ [Op.setf 1 ['q'], .ofs [':'], .setnf 2, .read 2, .ofmt []], Keeps 2 op := by
   intro op h
   simp only [List.mem_cons, List.mem_nil_iff, or_false] at h
-  rcases h with rfl | rfl | rfl | rfl | rfl <;> simp [Keeps]
+  rcases h with rfl | rfl | rfl | rfl | rfl <;> simp [Keeps, maxFlds]
 
 end Hawk.Rec
